@@ -333,6 +333,17 @@ def one_dataset(obs, rng, conv, spec, ctx):
                 obs.sample({'convention': conv, 'grid': face.shape, 'cells without geometry': holes[:8], 'variable': name,
                             'dims': var.dims, 'selected': sel, 'form': form, 'patches': len(col.get_paths()),
                             'first plotted cells': plotted[:6], 'their values': filled(col.get_array())[:6], 'clim': col.get_clim()})
+        # --- a second slice of the SAME variable on the same convention object: nothing remembered from the first call
+        #     (by variable name, say) may leak into the second collection
+        if var.extra and any(s > 1 for _, s in var.extra):
+            sel2 = dict(sel)
+            d, sz = pick(rng, [(d, s) for d, s in var.extra if s > 1])
+            sel2[d] = (sel[d] + 1 + int(rng.integers(sz - 1))) % sz
+            with quiet_warnings():
+                col2 = obs.call('make_poly_collection(another slice of the same variable)', ems.make_poly_collection, da.isel(sel2))
+            if not isinstance(col2, Failed):
+                obs.cls('collection:second-slice-of-same-variable')
+                check_collection(col2, var, sel2, 'second-slice')
         # --- overrides ---
         choice = pick(rng, ['clim', 'transform', 'array', 'both', 'clim+transform'])
         reduced_da = da.isel(sel)
